@@ -644,7 +644,7 @@ def check(rep: Report, tier: str, seed: int) -> None:
         run_correspondence(rep, lines, cmps)
     run_oracle(rep, rng, 32 if tier == "quick" else 320)
     rep.extra["stat_level_per_test"] = FWER / N_STAT_TESTS
-    if rep.broken and not rep.failing:
+    if rep.broken and not rep.unknown_failing():
         search(rep, seed, 160 if tier == "quick" else 1600)
 
 
